@@ -12,6 +12,7 @@ import BqVerif.Proofs.WakeNet
 import BqVerif.Proofs.WakeNet2
 import BqVerif.Proofs.WorkersInv
 import BqVerif.Proofs.MapArgs
+import BqVerif.Proofs.NextHandout
 /-!
 # C07 — every awaited runtime future resolves exactly once with its own result
 
@@ -532,5 +533,33 @@ example :
     ∧ (FineWake.runL {} FineWake.raceSchedule).maxReady ≤ 1 := by
   decide
 
+
+/-- **`next()` hand-out against result delivery, source-line model, ALL schedules**
+    (`Model/NextHandout.lean`: `out = self.fresh_results` / `self.fresh_results = []` on the main
+    thread, outside the mailbox mutex; `self.fresh_results.append(x)` on the incoming thread).  For
+    every schedule in which the hand-out performs its two statements - any number of deliveries
+    before, between and after them - what the task is handed followed by what stays fresh is
+    exactly what was fresh before followed by the results delivered, in order: nothing is lost,
+    nothing is handed out twice.  (The aliasing of `out` is what makes the unlocked window safe:
+    a result delivered between the two lines lands in the list the task is about to receive.) -/
+theorem C07_fine_next_handout {α : Type} (init : List α) (es : List (BqVerif.NextHandout.Ev α))
+    (h2 : ∃ e ∈ es, match e with | .a2 => True | _ => False) :
+    let s := BqVerif.NextHandout.run { c0 := init } es
+    BqVerif.NextHandout.handed s ++ BqVerif.NextHandout.remaining s
+      = init ++ BqVerif.NextHandout.delivered es := by
+  have h := BqVerif.NextHandout.run_inv es { c0 := init } init [] (by simp) (by simp)
+  simp only [List.nil_append] at h
+  have hf := h.2.2.1 h2
+  simp only [BqVerif.NextHandout.handed, BqVerif.NextHandout.remaining, hf, if_true]
+  exact h.1
+
+/-- the statement bites: with a COPY and an in-place `clear()` (seeded change C07-4) a result
+    delivered between the two lines is lost - the schedule the single-preemption exploration of
+    the harness finds on the real Worker -/
+theorem C07_fine_next_handout_copy_clear_witness :
+    let s := BqVerif.NextHandout.runV { c0 := [0] } [.a1, .b 1, .a2]
+    s.out ++ s.c0 = [0] ∧ BqVerif.NextHandout.delivered ([.a1, .b 1, .a2] : List (BqVerif.NextHandout.Ev Nat)) = [1]
+    ∧ (let t := BqVerif.NextHandout.run { c0 := [0] } ([.a1, .b 1, .a2] : List (BqVerif.NextHandout.Ev Nat))
+       BqVerif.NextHandout.handed t ++ BqVerif.NextHandout.remaining t = [0, 1]) := by decide
 
 end BqVerif.Runtime
